@@ -1396,7 +1396,7 @@ class Exec:
             if any(re.search(p, callee) for p in self.no_inline):
                 raise NotEncoded(f'call to {callee} must be stubbed')
             if sum(1 for fr in st.stack if fr.func is func) >= getattr(self, 'max_recursion', 3):
-                raise NotEncoded(f'recursion into {func.name}')
+                raise NotEncoded(f'recursion into {func.name} via {callee[:120]} in {" <- ".join(fr.func.name.split("::")[-1] for fr in reversed(st.stack[-5:]))}')
             return Enter(func, args, None, subst)
         if self.havoc_unknown:
             self.stats['stubbed'].add('HAVOC (unknown callee returns an arbitrary value): ' + callee[:80])
@@ -1461,6 +1461,8 @@ class Exec:
             return None           # an associated-type projection (`<I as IntoIterator>::IntoIter`): not a nameable impl of this crate
         sb = base_type(self_ty)
         out = []
+        if trait is None and re.match(r"^(std|core|alloc|cedar_policy_core|cedar_policy_formatter|serde_json|serde|miette|smol_str|itertools|nonempty|thiserror|ref_cast)::", self_ty):
+            return None       # an inherent method of a std type (`std::string::String::new`): never a body of this crate
         if trait is not None and re.match(r"^&*(?:'\w+ )?(?:mut )?(std|core|alloc)::", self_ty) and '::' not in trait.split('<')[0]:
             return None       # a std trait on a std type: never an impl of this crate (same-named crate types notwithstanding)
         for name in prog.names():
@@ -1481,7 +1483,10 @@ class Exec:
                         subst[h] = c
                         return True
                     al = self.enums.aliases if self.enums is not None else {}
-                    if al.get(base_type(h), base_type(h)) != al.get(base_type(c), base_type(c)):
+                    hb, cb = al.get(base_type(h), base_type(h)), al.get(base_type(c), base_type(c))
+                    if {hb, cb} == {'Report', 'ErrReport'} and 'miette' in h + c:
+                        hb = cb        # miette::Report is a re-export of miette::ErrReport; MIR prints the latter
+                    if hb != cb:
                         return False
                     ha, ca = type_args(h), type_args(c)
                     if ha and ca and len(ha) == len(ca):
